@@ -204,7 +204,7 @@ func determPrograms(c *common) (ids, srcs, texts []string) {
 		add("fixed", t)
 	}
 	for i, t := range sessionCatalogue {
-		add("catalogue", inst(t, 500000+i)+"\n")
+		add("catalogue", asText(inst(t, 500000+i))+"\n")
 	}
 	// corpus scripts that touch neither files, processes, time nor randomness
 	files, _ := filepath.Glob("/repo/tests/*.zy")
